@@ -4,6 +4,7 @@ import (
 	"context"
 	"errors"
 	"fmt"
+	"io"
 	"math/rand"
 	"sort"
 	"strings"
@@ -417,7 +418,7 @@ func c08Open(r *ev.Run, label string) (db.Client, string, error) {
 }
 
 func runC08(r *ev.Run) {
-	r.SetRule("PRNG sequences of db.Transaction / db.ReadOnly calls made directly on the SQLite client (every method of the interface), each return value compared with an in-memory relational model and the whole database dumped through its getters after every write transaction; transactions aborted at a PRNG-chosen point must leave the dump unchanged; plus every list-taking method at argument lengths around the batching limit. distinct = distinct (method, outcome class, argument-length class) tuples observed")
+	r.SetRule("PRNG sequences of db.Transaction / db.ReadOnly calls made directly on the SQLite client (every method of the interface), each return value compared with an in-memory relational model and the whole database dumped through its getters after every write transaction; transactions aborted at a PRNG-chosen point (the callback returns its own error, a wrapped one, db.ErrNotFound, context.Canceled / DeadlineExceeded of a nested call, an I/O error) must leave the dump unchanged; plus every list-taking method at argument lengths around the batching limit. distinct = distinct (method, outcome class, argument-length class) tuples observed")
 	r.Assume("operations are only called where the interface contract is defined (e.g. DeleteMessages only for messages that are in no mailbox); error-returning calls abort their transaction, as gluon's callers do",
 		"flag values are compared case-insensitively, as imap.FlagSet does")
 
@@ -466,6 +467,28 @@ func lenClass(n int) string {
 }
 
 var errAbort = errors.New("verif: abort transaction")
+
+// abortErr is what the caller's callback returns to abort: whatever kind of error a callback of gluon may come
+// back with (its own, a wrapped one, a "not found" of a nested read, a cancelled or timed-out remote call made
+// under a derived context, an I/O error) - the transaction's own context stays alive in every case.
+func (c *c08Case) abortErr() error {
+	switch k := c.rng.Intn(7); k {
+	case 0:
+		return fmt.Errorf("remote call failed: %w", errAbort)
+	case 1:
+		return fmt.Errorf("sub-operation cancelled: %w", context.Canceled)
+	case 2:
+		return context.Canceled
+	case 3:
+		return fmt.Errorf("remote call timed out: %w", context.DeadlineExceeded)
+	case 4:
+		return fmt.Errorf("lookup: %w", db.ErrNotFound)
+	case 5:
+		return io.ErrUnexpectedEOF
+	default:
+		return errAbort
+	}
+}
 
 // write runs one write transaction; fn returns (abort?) and may report mismatches itself.
 func (c *c08Case) write(name string, fn func(ctx context.Context, tx db.Transaction, m *dbModel) error) {
@@ -766,10 +789,11 @@ func (c *c08Case) randomWrite() {
 	c.write("tx", func(ctx context.Context, tx db.Transaction, m *dbModel) error {
 		for k := 0; k < nOps; k++ {
 			if k == abortAt {
-				c.logf("  (transaction aborted by the caller before op %d)", k)
-				c.note("abort", "rolled-back", 1)
+				err := c.abortErr()
+				c.logf("  (transaction aborted by the caller before op %d with %q)", k, err)
+				c.note("abort", "rolled-back "+errClass(err), 1)
 
-				return errAbort
+				return err
 			}
 
 			op, err := c.oneWriteOp(ctx, tx, m)
@@ -786,10 +810,11 @@ func (c *c08Case) randomWrite() {
 		}
 
 		if abortAt == nOps {
-			c.logf("  (transaction aborted by the caller at the end)")
-			c.note("abort", "rolled-back", 1)
+			err := c.abortErr()
+			c.logf("  (transaction aborted by the caller at the end with %q)", err)
+			c.note("abort", "rolled-back "+errClass(err), 1)
 
-			return errAbort
+			return err
 		}
 
 		return nil
